@@ -286,6 +286,19 @@ SCRIPTS = collections.OrderedDict([
 ])
 
 
+SCRIPTS_THOROUGH = collections.OrderedDict([
+    ("table with clauses", ["CREATE TABLE t (\n  a int,\n  b text\n)\nPARTITIONED BY (c int)\nSTORED AS parquet\nLOCATION 's3://x/y';\n",
+                            "create table s.u (\n  id bigint,\n  n varchar(3)\n)\npartitioned by (d date)\nstored as orc\nlocation '/a/b';\n",
+                            "CREATE EXTERNAL TABLE e (\n  k int,\n  v char(1)\n)\nPARTITIONED BY (p string)\nSTORED AS textfile\nLOCATION 'hdfs://h/p';\n"]),
+    ("alter and index", ["CREATE TABLE t (a int, b int);\nALTER TABLE t\n  ADD CONSTRAINT fk FOREIGN KEY (a)\n  REFERENCES o (x);\nCREATE UNIQUE INDEX ix\n  ON t (a, b);\n",
+                         "create table u (c int, d int);\nalter table u\n  add constraint f2 foreign key (c)\n  references p (y);\ncreate index i2\n  on u (c, d);\n",
+                         "CREATE TABLE s.v (e int, f int);\nALTER TABLE s.v\n  ADD CONSTRAINT f3 FOREIGN KEY (e)\n  REFERENCES q (z);\nCREATE INDEX i3\n  ON s.v (e, f);\n"]),
+    ("sequence over lines", ["CREATE SEQUENCE sq\n  START WITH 1\n  INCREMENT BY 2\n  MINVALUE 1\n  NO CYCLE;\n",
+                             "create sequence s.q2\n  start with 10\n  increment by 5\n  minvalue 0\n  no cycle;\n",
+                             "CREATE SEQUENCE Sq_3\n  START WITH 100\n  INCREMENT BY 1\n  MINVALUE 7\n  NO CYCLE;\n"]),
+])
+
+
 def check_line_formation(ck, ctx, lm, rule="O-form"):
     """the lines handed to the line machine do not depend on CRLF versus LF, on tabs versus blanks, on the amount of blanks, or on
     whether commas / parentheses are glued to their neighbours (compared blank-normalised, line by line)"""
@@ -316,7 +329,18 @@ def check_line_formation(ck, ctx, lm, rule="O-form"):
         ("no newline at the end", lambda t: t.rstrip("\n")),
     ]
     ref_handed = {}
-    for sname, texts in SCRIPTS.items():
+    scripts = collections.OrderedDict(SCRIPTS)
+    if ck.tier == "thorough":
+        scripts.update(SCRIPTS_THOROUGH)
+        variants += [
+            ("CRLF and tabs", lambda t: t.replace("\n  ", "\n\t").replace("\n", "\r\n")),
+            ("leading blank lines", lambda t: "\n\n" + t),
+            ("leading blanks on every line", lambda t: "   " + t.replace("\n", "\n   ")),
+            ("blanks before commas and after opening parentheses", lambda t: _outside_quotes(t, lambda c: c.replace(",", " ,").replace("(", "( "))),
+            ("a tab after every comma", lambda t: _outside_quotes(t, lambda c: c.replace(",", ",\t"))),
+            ("three blank lines between lines", lambda t: t.replace("\n", "\n\n\n\n")),
+        ]
+    for sname, texts in scripts.items():
         try:
             ref = drop_blank(lines_of(texts))
         except (PyRaise, Raised, NonUniform, LexUnknown) as e:
@@ -501,6 +525,15 @@ LITERAL_SCRIPTS = collections.OrderedDict([
 ])
 
 
+LITERAL_SCRIPTS_THOROUGH = collections.OrderedDict([
+    ("literal in a CHECK", "CREATE TABLE t (\n  a varchar(5) CHECK (a <> {L}),\n  b int\n);\n"),
+    ("second ENUM value", "CREATE TYPE m AS ENUM ('x', {L});\n"),
+    ("TBLPROPERTIES value", "CREATE TABLE t (a int) TBLPROPERTIES ('k'={L});\n"),
+    ("in the second statement", "CREATE TABLE u (z int);\nCREATE TABLE t (a varchar DEFAULT {L});\n"),
+    ("last column, closing parenthesis glued", "CREATE TABLE t (\n  b int,\n  a varchar DEFAULT {L});\n"),
+])
+
+
 def _as_quoted_lexemes(lx, lit):
     """the literal is one lexeme, or a run of adjacent quoted lexemes that spell it (a doubled quote ends one string token and
     starts the next; the grammar joins them again)"""
@@ -525,20 +558,28 @@ def check_literals(ck, ctx, rule="O-literal"):
     from .seam import lexemes
     n = 0
 
-    def around(text, q):
-        """the statement text before the first and after the last quote character q"""
-        i, j = text.find(q), text.rfind(q)
-        return (text[:i], text[j + 1:]) if 0 <= i < j else (text, "")
-
     ref = {}
-    for sname, tmpl in LITERAL_SCRIPTS.items():
-        h = list(lm.run_script(tmpl.replace("{L}", "'w'"))[0])
-        if len(h) != 1:
-            raise AnalysisError(f"O-literal: the reference script ({sname}) does not reach the grammar as one statement")
-        ref[sname] = tuple(lexemes(ctx.lexer, part) for part in around(h[0], "'"))
+    positions = collections.OrderedDict(LITERAL_SCRIPTS)
+    if ck.tier == "thorough":
+        positions.update(LITERAL_SCRIPTS_THOROUGH)
+    for sname, tmpl in positions.items():
+        for q in ("'", '"'):
+            h = list(lm.run_script(tmpl.replace("{L}", q + "w" + q))[0])
+            if len(h) != tmpl.count(";"):
+                raise AnalysisError(f"O-literal: the reference script ({sname}) does not reach the grammar as {tmpl.count(';')} statement(s)")
+            k = h[-1].rfind(q + "w" + q)
+            if k < 0:
+                raise AnalysisError(f"O-literal: the one-word reference literal does not reach the grammar verbatim ({sname})")
+            # the lexemes before and after the literal
+            ref[(sname, q)] = (lexemes(ctx.lexer, h[-1][:k]), lexemes(ctx.lexer, h[-1][k + 3:]))
+
+    def rest_ok(text, key):
+        pre, post = ref[key]
+        lx = lexemes(ctx.lexer, text)
+        return len(lx) >= len(pre) + len(post) + 1 and lx[:len(pre)] == pre and (not post or lx[len(lx) - len(post):] == post)
     for lname, lits in LITERALS.items():
         fails, rest_fails, lex_fails = [], [], []
-        for sname, tmpl in LITERAL_SCRIPTS.items():
+        for sname, tmpl in positions.items():
             n += 1
             texts = [tmpl.replace("{L}", l) for l in lits]
             for i, (text, lit) in enumerate(zip(texts, lits)):
@@ -550,17 +591,18 @@ def check_literals(ck, ctx, rule="O-literal"):
                     break
                 except (NonUniform, LexUnknown) as e:
                     raise AnalysisError(f"O-literal {lname} ({sname}): {e}")
-                if len(handed) != 1 or not isinstance(handed[0], str) or lit not in handed[0]:
+                want_n = tmpl.count(";")
+                last = handed[-1] if handed else None
+                if len(handed) != want_n or not isinstance(last, str) or lit not in last:
                     fails.append((sname, text, f"{lit} reaches the grammar as {handed!r}"))
-                elif not _as_quoted_lexemes(lexemes(ctx.lexer, handed[0]), lit):
-                    lx = lexemes(ctx.lexer, handed[0])
+                elif not _as_quoted_lexemes(lexemes(ctx.lexer, last), lit):
+                    lx = lexemes(ctx.lexer, last)
                     k = next((j for j, x in enumerate(lx) if x and x[0] == lit[0]), 0)
                     if not lex_fails or lex_fails[-1][0] != sname:
                         lex_fails.append((sname, text, f"{lit} is scanned as {' | '.join(lx[k:k + 4])!r}"))
-                if len(handed) == 1 and isinstance(handed[0], str):
-                    got = tuple(lexemes(ctx.lexer, part) for part in around(handed[0], lit[0]))
-                    if got != ref[sname]:
-                        rest_fails.append((sname, text, f"around {lit} the statement reaches the grammar as {handed[0]!r}"))
+                if len(handed) == want_n and isinstance(last, str):
+                    if not rest_ok(last, (sname, lit[0])):
+                        rest_fails.append((sname, text, f"around {lit} the statement reaches the grammar as {last!r}"))
                 elif not fails or fails[-1][0] != sname:
                     rest_fails.append((sname, text, f"{lit}: {len(handed)} statements handed over"))
                 if (fails and fails[-1][0] == sname) or (rest_fails and rest_fails[-1][0] == sname):
@@ -569,17 +611,17 @@ def check_literals(ck, ctx, rule="O-literal"):
         ok = not fails
         ck.ob(rule, title, ok,
               "the literal must reach the grammar verbatim, inside one statement" +
-              ("" if ok else f"; in {len(fails)} of {len(LITERAL_SCRIPTS)} positions ({', '.join(f[0] for f in fails)}): {fails[0][2]}"),
+              ("" if ok else f"; in {len(fails)} of {len(positions)} positions ({', '.join(f[0] for f in fails)}): {fails[0][2]}"),
               "Parser.pre_process_data / parse_data / process_line (evaluated abstractly)", witness=None if ok else repr(fails[0][1])[:160])
         ok = not lex_fails
         ck.ob(rule + ".lexeme", title, ok,
               "a literal that reaches the grammar verbatim must be taken whole by one lexer rule (one token)" +
-              ("" if ok else f"; in {len(lex_fails)} of {len(LITERAL_SCRIPTS)} positions: {lex_fails[0][2]}"),
+              ("" if ok else f"; in {len(lex_fails)} of {len(positions)} positions: {lex_fails[0][2]}"),
               "lexer rules (regexes in PLY's order) applied to the statement text", witness=None if ok else repr(lex_fails[0][1])[:160])
         ok = not rest_fails
         ck.ob(rule + ".rest", title, ok,
               "the statement around the literal must be scanned into the same lexemes as around a one-word literal" +
-              ("" if ok else f"; in {len(rest_fails)} of {len(LITERAL_SCRIPTS)} positions ({', '.join(f[0] for f in rest_fails)}): {rest_fails[0][2]}"),
+              ("" if ok else f"; in {len(rest_fails)} of {len(positions)} positions ({', '.join(f[0] for f in rest_fails)}): {rest_fails[0][2]}"),
               "Parser.pre_process_data / parse_data / process_line (evaluated abstractly)", witness=None if ok else repr(rest_fails[0][1])[:160])
     ck.count("literal_instances", n)
 
